@@ -96,6 +96,28 @@ def _truth_tested_nodes(root: ast.AST) -> Collection[ast.AST]:
     return truth_tested
 
 
+def _is_arithmetic(node: ast.AST) -> bool:
+    """The node is a sum that sympy reads like Python does: numbers, names, arithmetic operators.
+
+    parse_expr evaluates the text on Symbol objects, which are always true: `i and 1` would be 1,
+    `not x` False, `a if c else b` a, and `(n := 5)` would not bind anything any more.
+    """
+    allowed = (ast.Name, ast.Constant, ast.BinOp, ast.UnaryOp, ast.Call, ast.List, ast.Tuple)
+    allowed += (ast.Set, ast.ListComp, ast.GeneratorExp, ast.comprehension)
+    allowed += (ast.operator, ast.unaryop, ast.expr_context)
+    for child in ast.walk(node):
+        if not isinstance(child, allowed):
+            return False
+        if isinstance(child, ast.UnaryOp) and not isinstance(child.op, (ast.USub, ast.UAdd)):
+            return False
+        if isinstance(child, ast.Constant) and (
+            isinstance(child.value, bool) or not isinstance(child.value, (int, float))
+        ):
+            return False
+
+    return True
+
+
 def _parse_sympy_expr(expression):
     # Every name is a variable of the program, never one of sympy's own objects (I, E, S, N, pi...)
     expression = " ".join(expression.split())
@@ -339,6 +361,9 @@ def simplify_math_iterators(source: str) -> str:
             continue
 
         arg = node.args[0]
+        if not _is_arithmetic(arg):
+            continue
+
         if core.match_template(arg, ast.Call(func=ast.Name(id="range"))):
             if any((node is not arg for node in core.walk(arg, (ast.Attribute, ast.Call)))):
                 continue
